@@ -9,6 +9,78 @@ TITLE = 'receivers resynchronise after noise and never go deaf'
 KINDS = ('rtu', 'ascii', 'binary')
 
 
+def _monotone(e, pol, buf='self._buffer'):
+    """is `e` (required to have truth value `pol`) monotone under appending bytes to the buffer: once it holds it keeps holding
+    however many bytes arrive?  Length lower bounds and delimiter-presence tests are; comparing two positions is not."""
+    if isinstance(e, ast.UnaryOp) and isinstance(e.op, ast.Not):
+        return _monotone(e.operand, not pol, buf)
+    if isinstance(e, ast.BoolOp):
+        return all(_monotone(v, pol, buf) for v in e.values)
+    if isinstance(e, ast.Constant):
+        return True
+    if isinstance(e, ast.Call) and isinstance(e.func, ast.Name) and e.func.id == 'bool' and len(e.args) == 1:
+        return _monotone(e.args[0], pol, buf)
+    if buf not in U(e):
+        return True                      # does not look at the buffer at all
+    if isinstance(e, ast.Compare) and len(e.ops) == 1:
+        l, o, r = e.left, e.ops[0], e.comparators[0]
+        if isinstance(o, (ast.In, ast.NotIn)) and U(r) == buf and buf not in U(l):
+            return isinstance(o, ast.In) == pol
+        flip = {ast.Lt: ast.Gt, ast.LtE: ast.GtE, ast.Gt: ast.Lt, ast.GtE: ast.LtE, ast.Eq: ast.Eq, ast.NotEq: ast.NotEq}
+        if buf in U(r) and buf not in U(l) and type(o) in flip:
+            l, o, r = r, flip[type(o)](), l
+        if buf in U(r):
+            return False                 # two buffer-derived quantities compared with each other
+        grows = (isinstance(l, ast.Call) and U(l) == 'len(%s)' % buf) or \
+                (isinstance(l, ast.Call) and isinstance(l.func, ast.Attribute) and l.func.attr == 'count' and U(l.func.value) == buf)
+        if grows:
+            return isinstance(o, (ast.Gt, ast.GtE)) == pol and isinstance(o, (ast.Gt, ast.GtE, ast.Lt, ast.LtE))
+        found = isinstance(l, ast.Call) and isinstance(l.func, ast.Attribute) and l.func.attr == 'find' and U(l.func.value) == buf and len(l.args) == 1 and buf not in U(l.args[0])
+        if found and isinstance(r, (ast.Constant, ast.UnaryOp)):
+            try:
+                c = ast.literal_eval(r)
+            except Exception:
+                return False
+            # find() >= 0 / != -1 / > -1 : the delimiter is present
+            present = (isinstance(o, ast.NotEq) and c == -1) or (isinstance(o, ast.GtE) and c == 0) or (isinstance(o, ast.Gt) and c == -1)
+            absent = (isinstance(o, ast.Eq) and c == -1) or (isinstance(o, ast.Lt) and c == 0) or (isinstance(o, ast.LtE) and c == -1)
+            return (present and pol) or (absent and not pol)
+        return False
+    if U(e) == buf:
+        return pol                       # truthiness of the buffer: non-empty
+    return False
+
+
+def r11_readiness_is_monotone(ck, cx, rule='R11'):
+    """The garbage skip of the delimiter framers lives behind `while self.isFrameReady()`.  If the readiness predicate can be false
+    for a buffer that holds a complete frame behind some garbage, the skip is never reached and the receiver is deaf from then on.
+    A predicate that is monotone under appending (length lower bounds, delimiter-presence tests) cannot do that: whatever the
+    garbage, the next complete frame makes it true.  Comparing two positions in the buffer (first end delimiter after first start
+    delimiter, ...) is not monotone: garbage that contains the one before the other keeps it false for ever."""
+    ck.rule(rule, 'the readiness test that gates the garbage skip of the ASCII / binary framer is monotone under appending bytes (length lower bounds and delimiter presence only): no garbage prefix can keep it false for ever')
+    from ..common import annotate, ret_expr
+    n = 0
+    for kind in ('ascii', 'binary'):
+        cls, f, fps = framer_paths(cx, kind)
+        r = cx.method(cls, 'isFrameReady')
+        ck.saw('functions', r.qn)
+        for p in cx.enum(r, cls, max_depth=1):
+            annotate(p, heap=False)
+            if isinstance(p.exit, tuple) and p.exit[0] == 'exc':
+                continue
+            rv = ret_expr(p)
+            if rv is None or (isinstance(rv, ast.Constant) and not rv.value):
+                continue                 # a path on which the predicate is false
+            n += 1
+            parts = [(e._sub, e.a) for e in p.ev if e.kind == 'cond' and getattr(e, '_sub', None) is not None] + [(rv, True)]
+            bad = [(t, a) for t, a in parts if not _monotone(t, a)]
+            ck.ob(rule, r.qn, 'true-path of isFrameReady is monotone in the buffer', not bad, detail='readiness-not-monotone', loc=cx.floc(r),
+                  message='%s framer: isFrameReady() holds only if `%s%s`, which appending bytes does not preserve and garbage can falsify for good (e.g. an end delimiter '
+                          'ahead of the first start delimiter): the loop that skips garbage is then never entered, nothing is dropped and no later frame is delivered'
+                          % (kind, '' if not bad or bad[0][1] else 'not ', U(bad[0][0])[:90] if bad else ''))
+    ck.floor(rule, n, 2, 'true-paths of isFrameReady (ascii, binary)')
+
+
 def run(ck, tier):
     cx = Ctx()
     ck.rule('R1', 'progress on a corrupt complete frame: after a failed integrity check (checkCRC/checkLRC false) the buffer shrinks before processIncomingPacket returns')
@@ -112,6 +184,7 @@ def run(ck, tier):
     from ..share import import_findings as _imp
     ck.rule('R9', 'the serial client discards stale input before every request on every framing (shared with C13 R5)')
     _imp(ck, 'C13', 'R9', ('R5',), 'noise or an abandoned reply left in the port shifts every later count-based read: the master never resynchronises')
+    ck.guard(r11_readiness_is_monotone, ck, cx)
     from .. import strtypes as _st
     ck.rule('R10', 'hexlify_packets, evaluated with the receive buffer on every reset / processing path outside any log-level guard, is total: what it joins is text')
     ck.guard(_st.rule_join_total, ck, cx, 'R10', ('pymodbus.utilities.hexlify_packets',), 'resetFrame() raises before it clears the buffer: the backlog is never dropped and the serial handler dies in its own except branch')
